@@ -1360,8 +1360,12 @@ class FnExec:
                 yield st1, vals
                 continue
             if any(x.kind != "str" for x in vals):
-                yield st1, SV("const", "<f-string>")
-                continue
+                # a plugin may know how a non-str piece is formatted (e.g. a positive int as its numeral)
+                conv = [x if x.kind == "str" else self.eng.spec._plug("format_value", self, x, st1) for x in vals]
+                if any(c is None for c in conv):
+                    yield st1, SV("const", "<f-string>")
+                    continue
+                vals = conv
             it = iter(vals)
             parts = []
             for v in node.values:
